@@ -1,6 +1,7 @@
 package engine
 
 import (
+	"encoding/binary"
 	"fmt"
 	"path/filepath"
 
@@ -13,7 +14,7 @@ func (w *World) hostileRecovery(r *Run) string {
 	t := r.T
 	t.Begin("hostile-recovery")
 	defer t.End()
-	kinds := []string{"stale-same-setid", "foreign-set", "flip-in-recovery", "truncate-recovery", "garbage-named-like-volume", "empty-recovery", "flip-in-index", "forged-recovery-block", "conflicting-duplicate", "recovery-holds-sibling", "recovery-holds-index"}
+	kinds := []string{"stale-same-setid", "foreign-set", "flip-in-recovery", "truncate-recovery", "garbage-named-like-volume", "empty-recovery", "flip-in-index", "forged-recovery-block", "conflicting-duplicate", "recovery-holds-sibling", "recovery-holds-index", "length-field-grows"}
 	kind := kinds[t.Draw(len(kinds), "kind")]
 	return w.hostileRecoveryKind(r, kind)
 }
@@ -175,6 +176,30 @@ func (w *World) hostileRecoveryKind(r *Run, kind string) string {
 		}
 		r.Logf("hostile: %s now holds the bytes of %s", filepath.Base(dst), filepath.Base(src))
 		r.Probe("recovery-file-holds-sibling-bytes")
+	case "length-field-grows":
+		// the length field of a packet (not covered by the packet's MD5)
+		// is damaged to a larger, still plausible value: a multiple of 4
+		// that ends at a later packet boundary or inside the file
+		if len(present) == 0 {
+			return "none"
+		}
+		p := present[t.Draw(len(present), "which")]
+		b, _ := w.Disk.Get(p)
+		pk, _ := ref.ParsePackets(b)
+		if len(pk) < 2 {
+			return "none"
+		}
+		i := t.Draw(len(pk)-1, "packet")
+		x := pk[i]
+		newLen := pk[i+1].Offset + pk[i+1].Length - x.Offset
+		if t.Bool(1, 3, "odd-end") {
+			newLen = x.Length + 4*(1+t.Draw((len(b)-x.Offset-x.Length)/4, "extra-words"))
+		}
+		nb := append([]byte(nil), b...)
+		binary.LittleEndian.PutUint64(nb[x.Offset+8:], uint64(newLen))
+		w.Disk.Put(p, nb)
+		r.Logf("hostile length-field-grows: packet %d of %s now claims %d bytes (was %d)", i, filepath.Base(p), newLen, x.Length)
+		r.Probe("packet-length-field-grown")
 	case "foreign-set":
 		other := []ref.Protected{{Name: "foreign.bin", Data: expandContent(ckRandom, t.Draw64(0, "fseed"), 3*w.S+1, w.S)}}
 		set := ref.BuildSet(other, w.S, []int{0, 1}, "foreign")
